@@ -13,7 +13,8 @@ RULE = ("annotations from the C01 generator (valid, and with one tree-level faul
 ASSUMPTIONS = ["relational monitor: a defect affecting both executions identically is invisible here (C01 covers that)",
                "only ERROR severity is compared (capitalisation warnings legitimately depend on spelling)"]
 MIN_MONITOR_EVALS = {"revalidation-stable": 3000, "codes-equal-under-rewrite": 3000, "repeat-reported-anywhere": 100}
-MIN_KINDS = {"base-kind": {"mixed-toplevel": 50, "same-base-repeat": 50, "two-tag-faults": 50}, "rewrite": {"respace-text": 1000}}
+MIN_KINDS = {"base-kind": {"mixed-toplevel": 50, "same-base-repeat": 50, "two-tag-faults": 50,
+                           "def-expand-extra-member": 30, "fold-length-value": 100}, "rewrite": {"respace-text": 1000}}
 TREE_KINDS = ["unknown-tag", "extension-forbidden", "extension-is-schema-term", "requires-child", "bad-unit", "bad-value",
               "repeated-tag", "repeated-group", "taggroup-outside-group", "toplevel-nested", "empty-group",
               "stray-placeholder", "undeclared-def", "def-extra-value", "def-missing-value", "altered-def-expand",
@@ -218,6 +219,37 @@ def run_shard(shard, rec):
             if it3 is not None:
                 items, kind = it3, "repeated-group"
                 rec.count("base-kind", "same-base-repeat")
+        if kind == "valid" and gen.defs and "Def-expand" in gen.sp and rng.random() < 0.12:
+            # a Def-expand group with a member too many: wherever the extra member is written, the verdict is the same
+            import copy as _copy
+            with_content = [x for x in gen.defs if x["content"]]
+            if with_content:
+                d = rng.choice(with_content)
+                val = gen.def_value(d) if d["takes_value"] else None
+                suffix = "/" + d["name"] + ("/" + val if val else "")
+                saved = set(gen.used)
+                try:
+                    g = annot.group([annot.tag("Def-expand", suffix, gen.sp["Def-expand"].path, "def-expand"),
+                                     annot.group(gen.expansion(d, val)), gen._plain_atom()])
+                    items = _copy.deepcopy(items) + [g]
+                    kind = "def-expand-extra-member"
+                except RuntimeError:
+                    pass
+                gen.used = saved
+        gen83 = (o.version or "").startswith("8.3") or (o.with_standard or "").startswith("8.3")
+        if gen83 and rng.random() < 0.3:
+            # values and extensions with letters whose case-folded form has another length (sharp s, ligatures);
+            # only where such letters are legal, so that they are not a fault of their own
+            import copy as _copy
+            items = _copy.deepcopy(items)
+            w = rng.choice(["Stra\u00dfe", "Wei\u00df", "\ufb01ne", "Ma\u00df-3"])
+            if "label" in o.by_short and rng.random() < 0.5:
+                n0 = o.by_short["label"]
+                items.append(annot.tag(gen.spell(n0), "/" + w, n0.path, "value"))
+            elif gen.ext:
+                n0 = rng.choice(gen.ext)
+                items.append(annot.tag(gen.spell(n0), "/" + w, n0.path, "ext"))
+            rec.count("base-kind", "fold-length-value")
         if kind == "valid" and rng.random() < 0.25:
             saved = set(gen.used)
             try:
